@@ -48,11 +48,18 @@ def atom_value(a, u, s=None):
         Q = np.array(a['Q'], dtype=float)
         return float(u @ Q @ u)
     if t == 'power':
-        return np.abs(u) ** (a['p'] / a['q'])
+        if a.get('shape2'):
+            # 2-D argument with exponents given per row (shape (rows, 1)) or per column (shape (cols,)): NumPy broadcasting
+            pp = np.array(a['p'], dtype=float).reshape(a['pshape'])
+            qq = np.array(a['q'], dtype=float).reshape(a['pshape']) if isinstance(a['q'], list) else float(a['q'])
+            return (np.abs(u.reshape(a['shape2'])) ** (pp / qq)).ravel()
+        return np.abs(u) ** (np.array(a['p'], dtype=float) / np.array(a['q'], dtype=float))
     if t == 'exp':
         return np.exp(u)
     if t == 'pexp':
-        return s * np.exp(u / s)
+        s = np.maximum(s, 1e-300)           # closure of the perspective at scale 0
+        with np.errstate(all='ignore'):
+            return s * np.exp(np.minimum(u / s, 700.0))
     if t == 'softplus':
         return np.log1p(np.exp(u))
     if t == 'gmean':
@@ -61,7 +68,8 @@ def atom_value(a, u, s=None):
     if t == 'log':
         return np.log(u)
     if t == 'plog':
-        return s * np.log(u / s)
+        s = np.maximum(s, 1e-300)           # closure of the perspective at scale 0
+        return s * np.log(np.maximum(u, 1e-300) / s)
     if t == 'entropy':
         uu = np.maximum(u, 1e-300)          # closure: 0*log(0) = 0
         return float(-np.sum(uu * np.log(uu)))
@@ -256,7 +264,7 @@ def atom_use(draw, n, xbar, names, as_objective=False, allow_off=True, strict=Fa
     """an atom use that holds at the witness with a drawn slack (slack 0 allowed)"""
     name = draw(st.sampled_from(names))
     curv, res, dom, layer = ATOMS[name]
-    k = draw(st.integers(1, 3))
+    k = draw(st.integers(1, 4 if name == 'power' else 3))
     if name in ('gmean',):
         k = draw(st.integers(2, 3))
     if as_objective and res == 'elem' and name not in ('exp', 'log'):
@@ -272,8 +280,28 @@ def atom_use(draw, n, xbar, names, as_objective=False, allow_off=True, strict=Fa
     if name == 'pnorm':
         a['p'] = draw(st.sampled_from([3, 4, 5, [3, 2], [5, 3], [7, 2], 2.5, 1.5]))
     if name == 'power':
-        p, q = draw(st.sampled_from([(2, 1), (3, 1), (3, 2), (4, 3), (5, 2), (4, 1)]))
-        a['p'], a['q'] = p, q
+        PQ = [(2, 1), (3, 1), (3, 2), (4, 3), (5, 2), (4, 1)]
+        mode = draw(st.sampled_from(['scalar', 'scalar', 'vector', 'rows', 'cols'])) if not as_objective else 'scalar'
+        if mode == 'scalar' or k == 1:
+            p, q = draw(st.sampled_from(PQ))
+            a['p'], a['q'] = p, q
+        elif mode == 'vector':
+            pq = [draw(st.sampled_from(PQ)) for _ in range(k)]
+            a['p'], a['q'] = [v[0] for v in pq], [v[1] for v in pq]
+        else:
+            # 2-D argument (rows x cols = k) with exponents per row (shape (rows,1)) or per column (shape (cols,))
+            rows = 2 if k % 2 == 0 else 1
+            if k == 3:
+                rows = draw(st.sampled_from([1, 3]))
+            cols = k // rows
+            a['shape2'] = [rows, cols]
+            cnt = rows if mode == 'rows' else cols
+            pq = [draw(st.sampled_from(PQ)) for _ in range(cnt)]
+            a['p'] = [v[0] for v in pq]
+            a['q'] = [v[1] for v in pq] if draw(st.booleans()) else 1
+            if a['q'] == 1:
+                a['p'] = [max(v, 2) for v in a['p']]
+            a['pshape'] = [rows, 1] if mode == 'rows' else [cols]
     if name == 'gmean':
         a['beta'] = [draw(st.integers(1, 3)) for _ in range(k)]
     if name == 'quad':
@@ -521,7 +549,15 @@ def _atom_expr(a, x):
         Q = np.array(a['Q'], dtype=float)
         f = u.quad(Q) if meth else rso.quad(u, Q)
     elif t == 'power':
-        f = u.power(a['p'], a['q']) if meth else rso.power(u, a['p'], a['q'])
+        if a.get('shape2'):
+            u2 = u.reshape(tuple(a['shape2']))
+            pp = np.array(a['p']).reshape(a['pshape'])
+            qq = np.array(a['q']).reshape(a['pshape']) if isinstance(a['q'], list) else a['q']
+            f = u2.power(pp, qq) if meth else rso.power(u2, pp, qq)
+        elif isinstance(a['p'], list):
+            f = u.power(np.array(a['p']), np.array(a['q'])) if meth else rso.power(u, np.array(a['p']), np.array(a['q']))
+        else:
+            f = u.power(a['p'], a['q']) if meth else rso.power(u, a['p'], a['q'])
     elif t == 'gmean':
         f = u.gmean(a['beta']) if meth else rso.gmean(u, a['beta'])
     elif t == 'exp':
@@ -572,21 +608,25 @@ def atom_constraint(a, x):
     r0 = np.array(a['r0'], dtype=float)
     if scalar:
         o, r, o0, r0 = o[0], r[0], float(o0[0]), float(r0[0])
+    sh2 = tuple(a['shape2']) if a.get('shape2') else None
+
+    def R(e):       # element-wise atoms on a 2-D argument: the affine sides take the same 2-D shape
+        return e.reshape(sh2) if sh2 is not None and hasattr(e, 'reshape') else e
     has_o = bool(np.any(o)) or bool(np.any(o0))
     cvx = atom_curv(a) == 'cvx'
     if has_o and sp in (0, 1, 4):
-        lhs = f + (o @ x + o0)
-        rhs = r @ x + r0
+        lhs = f + R(o @ x + o0)
+        rhs = R(r @ x + r0)
     elif has_o and sp in (2,):
-        lhs = (o @ x + o0) + f
-        rhs = r @ x + r0
+        lhs = R(o @ x + o0) + f
+        rhs = R(r @ x + r0)
     else:
         lhs = f
-        rhs = (r - o) @ x + (r0 - o0)
+        rhs = R((r - o) @ x + (r0 - o0))
     if not np.any(r - o if lhs is f else r):
         rhs_const = (r0 - o0) if lhs is f else r0
         if sp in (0, 3):
-            rhs = rhs_const if scalar else np.array(rhs_const)
+            rhs = rhs_const if scalar else R(np.array(rhs_const))
     if cvx:
         return (lhs <= rhs) if sp != 5 else (rhs >= lhs)
     return (lhs >= rhs) if sp != 5 else (rhs <= lhs)
